@@ -59,6 +59,7 @@ fn parse_integer_with_error(signed: bool, input: TokenStream) -> Result<(Sign, U
     let mut neg = false;
     let mut base_marked = false;
     let mut base: Option<_> = None;
+    let mut sign_seen = false;
 
     // parse tokens
     for token in input {
@@ -82,6 +83,11 @@ fn parse_integer_with_error(signed: bool, input: TokenStream) -> Result<(Sign, U
                 }
             }
             TokenTree::Punct(punct) => {
+                // at most one sign is allowed
+                if sign_seen {
+                    return Err(ParseError::InvalidDigit);
+                }
+                sign_seen = true;
                 if val.is_none() && punct.as_char() == '-' {
                     if signed {
                         neg = true;
